@@ -7,6 +7,7 @@ import J5V.Pipe.JoinProofs
 import J5V.Pipe.EntityProofs
 import J5V.Pipe.ClientProofs
 import J5V.Pipe.Swagger
+import J5V.Pipe.SwaggerDocProofs
 import J5V.Generated.PipeFacts
 /-!
 # C16 — everything the compiler emits is consumable by the rest of the toolchain
@@ -674,6 +675,178 @@ example : groupOps [{ verb := "get", path := b!"/a" }, { verb := "post", path :=
     [[{ verb := "get", path := b!"/a" }, { verb := "put", path := b!"/a" }], [{ verb := "post", path := b!"/b" }]] := by
   decide
 
+/-! ## the OpenAPI document: `BuildSwagger` on the client API (`Pipe/SwaggerDoc.lean`) -/
+
+/-- **The document is built for every client API.** `buildSwagger` (= `BuildSwagger` +
+`addService` + `addMethod` + `ConvertRootSchema` over `convertSchema`) returns `.ok` — no error
+arm, no panic arm — for *every* `ClientAPI` value: any services, methods, parameters, bodies (or
+none: raw responses), any schema map, over any schema graph (recursive, unlinked references
+included: references are leaves for `convertSchema`). And the document is what it should be:
+its operations are exactly the operations of the methods of the declared services, each with the
+method's verb and path, parameters = path parameters (`in: path`, required) then query parameters
+(`in: query`) by name and in order, a request body / a response content iff the method has one, with
+the same set of property names, each once (`Properties` is a Go map: a later property replaces an
+earlier one of the same name — `lastWins`); the paths object is `groupOps` of the methods' (verb, path) list (so
+`C16_swagger_paths` applies to it); the component keys are the keys of the schema map. -/
+theorem C16_swagger_document_total (api : ClientAPI) :
+    ∃ doc, buildSwagger api = .ok doc ∧
+      (∀ o, o ∈ doc.paths.flatten ↔
+        ∃ s ∈ api.services, ∃ m ∈ s.methods, buildOperation s.name m = .ok o ∧ OperationOf s.name m o) ∧
+      doc.paths.map (·.map DOperation.toSOp) = groupOps api.sops ∧
+      doc.componentKeys = api.schemas.map (·.1) := by
+  obtain ⟨doc, hdoc, hops, hkeys, _⟩ := buildSwagger_ok api
+  refine ⟨doc, hdoc, ?_, buildSwagger_paths api doc hdoc, hkeys⟩
+  intro o
+  rw [hops o]
+  constructor
+  · rintro ⟨s, hs, m, hm, h⟩
+    obtain ⟨o', ho', hof⟩ := buildOperation_ok s.name m
+    rw [h] at ho'; cases ho'
+    exact ⟨s, hs, m, hm, h, hof⟩
+  · rintro ⟨s, hs, m, hm, h, _⟩
+    exact ⟨s, hs, m, hm, h⟩
+
+/-- **Every `$ref` of the document names a component that is present.** For the client API the
+model's client builder produces (`buildClient`: request split, bodies and responses through
+`ToJ5ClientObject()`, schema map = `collectPackageRefs` over the client view, any entities beside
+the declared services) from a schema set whose references are linked (`RefsLinked` on the client
+view, `PropsLinked` for the request / response messages: what `assertRefsLink` establishes for a
+source API), every reference anywhere in the document — parameters, request bodies (flattened
+fields expanded), responses, and the properties of every component, through arrays and maps, enum
+references included — is the key of a component of `components.schemas`. -/
+theorem C16_swagger_refs_resolve (g cg : Graph) (services : List ServiceIn) (entities : List EntityRoots)
+    (api : ClientAPI) (doc : Document)
+    (hcg : clientGraph g = some (.ok cg)) (hl : RefsLinked cg)
+    (hm : ∀ s ∈ services, ∀ m ∈ s.methods, PropsLinked cg (m.req ++ m.resp.getD []))
+    (hb : buildClient g services entities = some (.ok api)) (hd : buildSwagger api = .ok doc) :
+    ∀ r ∈ doc.refs, r ∈ doc.componentKeys :=
+  swagger_refs_resolve g cg services entities api doc hcg hl hm hb hd
+
+/-- a service over `flatGraph`: `POST /as/:x` with a flattened `B` in the body and a response
+holding an array of `A`; `GET /as/:x` (same path: one path item) with a query parameter referring
+to `C` and no response body -/
+def exampleServices : List ServiceIn :=
+  [{ name := b!"AService", methods :=
+      [{ name := b!"Put", verb := .post, path := b!"/as/:x",
+         req := [{ name := b!"x", field := .scalar }, { name := b!"b", field := .object 1, flat := true }],
+         resp := some [{ name := b!"items", field := .array (.object 0) }] },
+       { name := b!"Get", verb := .get, path := b!"/as/:x",
+         req := [{ name := b!"x", field := .scalar }, { name := b!"c", field := .map (.object 2) }],
+         resp := none }] }]
+
+def exampleCG : Graph := match clientGraph flatGraph with | some (.ok cg) => cg | _ => []
+def exampleApi : ClientAPI := match buildClient flatGraph exampleServices [] with
+  | some (.ok api) => api | _ => { services := [], schemas := [] }
+def exampleDoc : Document := match buildSwagger exampleApi with | .ok d => d | _ => { paths := [], components := [] }
+
+/-- the hypotheses of `C16_swagger_refs_resolve` hold for it, the document exists, has one path item
+with both operations, the body of `Put` shows B's client properties, and its references are 0, 1, 2 -/
+example : clientGraph flatGraph = some (.ok exampleCG) ∧ RefsLinked exampleCG ∧
+    (∀ s ∈ exampleServices, ∀ m ∈ s.methods, PropsLinked exampleCG (m.req ++ m.resp.getD [])) ∧
+    buildClient flatGraph exampleServices [] = some (.ok exampleApi) ∧ buildSwagger exampleApi = .ok exampleDoc ∧
+    exampleDoc.paths.map (·.map (·.verb.lower)) = [["post", "get"]] ∧
+    exampleDoc.paths.flatten.map (fun o => o.params.map (·.name)) = [[b!"x"], [b!"x", b!"c"]] ∧
+    exampleDoc.paths.flatten.map (fun o => (o.body.getD []).map (·.1)) =
+      [[b!"bName", b!"name", b!"self", b!"b", b!"plain", b!"cName"], []] ∧
+    exampleDoc.paths.flatten.map (·.response.isSome) = [true, false] ∧
+    exampleDoc.refs.eraseDups = [0, 1, 2] ∧ exampleDoc.componentKeys = [2, 0, 1] := by
+  refine ⟨by decide, by decide, ?_, by decide, by decide, by decide, by decide, by decide, by decide, by decide, by decide⟩
+  intro s hs m hm
+  simp only [exampleServices, List.mem_singleton] at hs
+  subst hs
+  simp only [List.mem_cons, List.not_mem_nil, or_false] at hm
+  rcases hm with rfl | rfl <;> decide
+
+/-- two body properties of one name (a flattened child named like a sibling): the later one is kept -/
+example : lastWins [(b!"a", ⟨"string", none⟩), (b!"b", ⟨"ref", some 1⟩), (b!"a", ⟨"ref", some 2⟩)] =
+    [(b!"b", ⟨"ref", some 1⟩), (b!"a", ⟨"ref", some 2⟩)] := by decide
+
+/-- an unlinked reference (another API's schema) is a dangling `$ref`: the hypothesis is needed -/
+def danglingServices : List ServiceIn :=
+  [{ name := b!"S", methods :=
+      [{ name := b!"M", verb := .get, path := b!"/m", req := [{ name := b!"q", field := .object 9 }], resp := none }] }]
+example : (match buildClient [] danglingServices [] with
+    | some (.ok api) => (match buildSwagger api with | .ok doc => some (doc.refs, doc.componentKeys) | _ => none)
+    | _ => none) = some ([9], []) := by
+  decide
+
+/-- **The model's client builder is total** on schema sets in which `flatten` only sits on fields
+whose object is in the set (`FlatLinked`, `ServicesFlatOk`: what the schema reader produces), for
+any services, methods and entities; and every method of the result is the declared method: name,
+verb, path, path / query parameter names = `fillRequest`'s split (`C16_split_partition`,
+`C16_split_path_params` apply), a body iff the verb has one, a response iff one is declared. -/
+theorem C16_client_build_total (g : Graph) (hl : FlatLinked g) (services : List ServiceIn)
+    (entities : List EntityRoots) (hs : ServicesFlatOk g services) :
+    (∃ api, buildClient g services entities = some (.ok api) ∧ api.services.length = services.length) ∧
+    ∀ s ∈ services, ∀ m ∈ s.methods, ∃ am, buildMethod g m = some (.ok am) ∧
+      am.name = m.name ∧ am.verb = m.verb ∧ am.path = m.path ∧
+      am.pathParams.map (·.name) = (fillRequest m.verb.hasBody m.path (m.req.map (·.name))).path ∧
+      am.queryParams.map (·.name) = (fillRequest m.verb.hasBody m.path (m.req.map (·.name))).query ∧
+      am.body.isSome = m.verb.hasBody ∧ am.response.isSome = m.resp.isSome :=
+  ⟨buildClient_ok g hl services entities hs,
+   fun s hsm m hmm => buildMethod_ok g hl m (hs s hsm m hmm).1 (hs s hsm m hmm).2⟩
+
+/-- **Every reference of the client API names a schema of its schema map** — what the J5 JSON
+rendering of the API (`codec.ProtoToJSON`, field by field) shows: parameters, request bodies
+(flattened fields expanded), responses and the properties of every schema, through arrays and
+maps, enum references included. Same hypotheses as `C16_swagger_refs_resolve`. (The converse
+direction — every reachable schema is present — is `C16_client_schemas_complete`.) -/
+theorem C16_client_refs_resolve (g cg : Graph) (services : List ServiceIn) (entities : List EntityRoots)
+    (api : ClientAPI)
+    (hcg : clientGraph g = some (.ok cg)) (hl : RefsLinked cg)
+    (hm : ∀ s ∈ services, ∀ m ∈ s.methods, PropsLinked cg (m.req ++ m.resp.getD []))
+    (hb : buildClient g services entities = some (.ok api)) :
+    ∀ r ∈ api.refs, r ∈ api.schemaKeys :=
+  client_refs_resolve g cg services entities api hcg hl hm hb
+
+/-- **Source set to document, composed**: for a `FlatLinked` schema set with linked references and
+any declared services / entities, the client API exists, the document exists, and every `$ref` of
+the document names one of its components. -/
+theorem C16_swagger_chain (g : Graph) (hfl : FlatLinked g) (services : List ServiceIn)
+    (entities : List EntityRoots) (hs : ServicesFlatOk g services)
+    (hl : ∀ cg, clientGraph g = some (.ok cg) → RefsLinked cg ∧
+      ∀ s ∈ services, ∀ m ∈ s.methods, PropsLinked cg (m.req ++ m.resp.getD [])) :
+    ∃ api doc, buildClient g services entities = some (.ok api) ∧ buildSwagger api = .ok doc ∧
+      ∀ r ∈ doc.refs, r ∈ doc.componentKeys := by
+  obtain ⟨api, hapi, _⟩ := buildClient_ok g hfl services entities hs
+  obtain ⟨doc, hdoc, _⟩ := buildSwagger_ok api
+  obtain ⟨cg, hcg, _⟩ := clientGraph_ok g hfl
+  obtain ⟨h1, h2⟩ := hl cg hcg
+  exact ⟨api, doc, hapi, hdoc, swagger_refs_resolve g cg services entities api doc hcg h1 h2 hapi hdoc⟩
+
+example : ServicesFlatOk flatGraph exampleServices ∧ exampleApi.refs.eraseDups = [0, 1, 2] ∧
+    exampleApi.schemaKeys = [2, 0, 1] := by
+  refine ⟨?_, by decide, by decide⟩
+  intro s hs m hm
+  simp only [exampleServices, List.mem_singleton] at hs
+  subst hs
+  simp only [List.mem_cons, List.not_mem_nil, or_false] at hm
+  rcases hm with rfl | rfl <;> decide
+
+/-! ### the array search is over the response's *own* properties, on both sides
+
+`checkListMethod` (compiler) and `buildListRequest` (client) both look for the one array among
+`Response.Properties` / `responseObj.Properties` — `arrayElems` on the declared properties, not on
+`ClientProperties()`. That both do is what `C16_list_shape_accepted` rests on: a flattened object
+field of the response that holds an array is invisible to both. (Seeded change C16-m8 made the
+client side range over the client properties.) -/
+
+/-- `A { name }`, `Env { tags: array of scalar }`; response `{ env: flatten Env, items: array of A }` -/
+def envelopeGraph : Graph :=
+  [ { kind := .object, props := [{ name := b!"name", field := .scalar, tag := 4 }] },
+    { kind := .object, props := [{ name := b!"tags", field := .array .scalar }] } ]
+def envelopeResponse : List Prop' :=
+  [{ name := b!"env", field := .object 1, flat := true }, { name := b!"items", field := .array (.object 0) }]
+
+/-- the compiler accepts the envelope response, `buildListRequest` builds the list request from it;
+the same search over the response's client properties (where `tags` shows) would refuse it -/
+theorem C16_list_shape_own_properties :
+    compileListShapeOk (some envelopeResponse) = true
+    ∧ buildListRequest envelopeGraph (some envelopeResponse) = some (.ok { filter := [], sort := [], search := [[b!"name"]] })
+    ∧ (clientMessageProps envelopeGraph envelopeResponse).map (fun o => o.bind (listItemSchema envelopeGraph))
+        = some (.err "found-multiple-arrays") := by
+  decide
+
 end J5V.Props.C16
 
 /-! ## Obligations over facts regenerated from the current source (`extract -what pipe`) -/
@@ -745,7 +918,8 @@ theorem C16_src_enum_defaults :
 `clientProperties` appends itself to `flattening`, expands a flattened field only when its object is
 not in `flattening`, and keeps every other property; `fillRequest` builds the list request exactly
 for a `QueryRequest` property and refuses a missing response body (`fix:` d14b8cb);
-`buildListRequest` refuses a second array and a missing one; its callback looks at enum fields and
+`buildListRequest` refuses a second array and a missing one, looking among the response's own
+properties (`range responseObj.Properties`, not `ClientProperties()`: `C16_list_shape_own_properties`); its callback looks at enum fields and
 scalar schemas only (so the list rules of a oneof field have no effect); `addMethod` appends to the
 first path item with the method's path, else appends a new one; `BuildSwagger` takes the declared
 services of every package (not the entity services) -/
@@ -755,6 +929,7 @@ theorem C16_src_flatten_list_swagger :
       "properties = append(properties, child)", "continue", "properties = append(properties, prop)"]
     ∧ fillRequestListFacts = ["if isQueryRequest", "if responseSchema == nil"]
     ∧ listRequestShapeFacts = ["if !ok", "if !ok", "if foundArray != nil", "if foundArray == nil", "if !ok"]
+    ∧ listRequestRanges = ["range responseObj.Properties", "range filtering.DefaultFilters"]
     ∧ listRequestOuterArms = ["*j5schema.EnumField", "*j5schema.ScalarSchema"]
     ∧ swaggerAddMethodFacts = ["if pathItem.MapKey() == method.HttpPath", "break", "if !found",
         "dd.Paths = append(dd.Paths, pathItem)"]
@@ -771,6 +946,33 @@ theorem C16_src_compile_list_check :
         "if typeRef.Package == \"j5.list.v1\" && typeRef.Name == \"QueryRequest\"", "if !isList",
         "if method.Response == nil", "if array != nil", "items = append(items, array.Items)",
         "if len(items) != 1 || items[…].GetObject() == nil"] := by
+  decide
+
+/-- `Pipe/SwaggerDoc.lean` follows the source of the OpenAPI assembly. `addMethod`: a loop over the
+path parameters emitting `In: "path"`, `Required: true`, then a loop over the query parameters
+emitting `In: "query"` with the property's own `Required`, each stopping at a conversion error; the
+request body only when `method.Request.Body != nil`; one response with `Code: 200` whose content is
+set only when `method.ResponseBody != nil`; then the path grouping. `convertObjectItem` /
+`convertOneofItem`: one loop over the properties, stopping at the first error, filing each under
+`out.Properties[prop.Name]` (a map: `lastWins`). `ConvertRootSchema`: object / oneof / enum, else an
+error. `BuildSwagger`: the declared services of every package, then every schema of every package
+under `<package>.<key>`. `convertSchema`'s three reference arms write `#/definitions/<package>.<schema>`:
+the same `<package>.<schema>` key (`Document.componentKeys` vs `Document.refs` in the model). -/
+theorem C16_src_swagger_document :
+    swaggerOperationSkeleton = ["range method.Request.PathParameters", "if err != nil", "In: \"path\"", "Required: true",
+      "range method.Request.QueryParameters", "if err != nil", "In: \"query\"", "Required: property.Required",
+      "if method.Request.Body != nil", "if err != nil", "Required: true", "Code: 200",
+      "if method.ResponseBody != nil", "if err != nil", "range dd.Paths",
+      "if pathItem.MapKey() == method.HttpPath", "if !found"]
+    ∧ swaggerObjectSkeleton = ["range item.Properties", "if err != nil", "out.Properties[prop.Name] =", "if prop.Required"]
+    ∧ swaggerOneofSkeleton = ["IsOneof: true", "range item.Properties", "if err != nil", "out.Properties[prop.Name] ="]
+    ∧ swaggerRootSkeleton = ["case *schema_j5pb.RootSchema_Object", "case *schema_j5pb.RootSchema_Oneof",
+        "case *schema_j5pb.RootSchema_Enum", "default"]
+    ∧ swaggerBuildSkeleton = ["range b.Packages", "range pkg.Services", "if err != nil", "range b.Packages",
+        "range pkg.Schemas", "if err != nil", "Sprintf \"%s.%s\" pkg.Name, key", "schemas[fullKey] ="]
+    ∧ swaggerRefFormats = ["Sprintf \"#/definitions/%s.%s\" t.Ref.Package, t.Ref.Schema",
+        "Sprintf \"#/definitions/%s.%s\" t.Ref.Package, t.Ref.Schema",
+        "Sprintf \"#/definitions/%s.%s\" t.Ref.Package, t.Ref.Schema"] := by
   decide
 
 end J5V.Props.C16
